@@ -235,3 +235,79 @@ pub fn join<T: AsRef<str>>(xs: &[T], sep: &str) -> String {
         xs.iter().map(|s| s.as_ref()).collect::<Vec<_>>().join(sep)
     }
 }
+
+/// Call `$body` with `$a` bound to the socket address in one of the `ToSocketAddrs` forms the
+/// shim accepts (chosen by `$sel`): SocketAddr, (IpAddr, u16), String, &str, (&str, u16),
+/// (String, u16), SocketAddrV4/V6, (Ipv4Addr/Ipv6Addr, u16).
+#[macro_export]
+macro_rules! addr_form {
+    ($sel:expr, $sa:expr, $a:ident => $body:expr) => {{
+        let sa: std::net::SocketAddr = $sa;
+        match ($sel) % 8 {
+            0 => {
+                let $a = sa;
+                $body
+            }
+            1 => {
+                let $a = (sa.ip(), sa.port());
+                $body
+            }
+            2 => {
+                let $a = sa.to_string();
+                $body
+            }
+            3 => {
+                let s_ = sa.to_string();
+                let $a = s_.as_str();
+                $body
+            }
+            4 => {
+                let s_ = sa.ip().to_string();
+                let $a = (s_.as_str(), sa.port());
+                $body
+            }
+            5 => {
+                let $a = (sa.ip().to_string(), sa.port());
+                $body
+            }
+            6 => match sa {
+                std::net::SocketAddr::V4(v) => {
+                    let $a = v;
+                    $body
+                }
+                std::net::SocketAddr::V6(v) => {
+                    let $a = v;
+                    $body
+                }
+            },
+            _ => match sa.ip() {
+                std::net::IpAddr::V4(v) => {
+                    let $a = (v, sa.port());
+                    $body
+                }
+                std::net::IpAddr::V6(v) => {
+                    let $a = (v, sa.port());
+                    $body
+                }
+            },
+        }
+    }};
+}
+
+/// Deterministic selector stream for choosing between equivalent API entry points.
+#[derive(Clone)]
+pub struct Sel(pub u64);
+
+impl Sel {
+    pub fn from_str(s: &str) -> Sel {
+        let mut h = 0xcbf2_9ce4_8422_2325u64;
+        for b in s.bytes() {
+            h = (h ^ b as u64).wrapping_mul(0x0000_0100_0000_01b3);
+        }
+        Sel(h)
+    }
+    pub fn next(&mut self) -> usize {
+        self.0 = self.0.wrapping_mul(6364136223846793005).wrapping_add(1442695040888963407);
+        (self.0 >> 33) as usize
+    }
+}
